@@ -18,10 +18,27 @@ and before the thread ends, every target preceded by the worker's own clear poll
 flag, no target after stop() returned until the next start() call, start on running / stop on
 stopped perform no operation, a (re)start creates and starts a fresh thread that does not leave
 its loop before stop is requested, thread_is_alive() tells the truth, no deadlock, no
-exception, no spinning.
+exception, no spinning, a clear poll is followed by a target call, never two live workers.
+
+Callback flavours (REVIEW round 3, C13-r3m1).  The history field of a case may carry `@<flavour>`
+(`SPS@bound`; the Lean driver only carries the field along): how the ThreadCommon object is built —
+  (none)   closures of the harness (the object and its callbacks stay referenced)
+  bound    bound methods of a temporary object that nobody else references (`job` dropped, gc.collect())
+  lambda   temporary lambdas          partial  temporary functools.partial objects
+  func     plain module-level functions          callobj  temporary objects with `__call__`
+  same     closures, but the worker thread is given the NAME of the controlling thread (C13-r3m2)
+Every flavour must behave exactly like the plain one: same traces, same verdicts.
+
+Virtual-time scenarios (`worker vscen …`, harness/vsim.py; judged by the same oracle `check_property` plus
+clock-aware tests, run in both tiers from `extra_checks`): a callback that stays inside ONE call for a long
+(virtual) time — 10 s … 1 h, longer than any plausible join timeout — while stop() is called: stop must not
+return before that call has ended, final has run and the thread is gone; an immediate start() must not give
+two live workers; is_alive must tell the truth; also with a controlling thread that has the worker's name.
 """
 from __future__ import annotations
 
+import functools
+import gc
 import multiprocessing
 import os
 import random
@@ -83,30 +100,143 @@ class Guided:
         return default
 
 
+# ----------------------------------------------------------------------------------------
+# how the worker object is built (callback flavours)
+# ----------------------------------------------------------------------------------------
+FLAVOURS = ("bound", "lambda", "partial", "func", "callobj", "same")
+FLAVOUR_DOC = {
+    "": "closures kept alive by the harness",
+    "bound": "bound methods of a temporary object that nothing else references (owner dropped, gc.collect())",
+    "lambda": "temporary lambdas", "partial": "temporary functools.partial objects",
+    "func": "plain module-level functions", "callobj": "temporary objects with __call__",
+    "same": "closures; the worker thread has the same name as the controlling thread",
+}
+_G = {}     # recorder of the case in progress (for the plain module-level callbacks)
+
+
+def split_hist(hist):
+    """'SPS@bound' -> ('SPS', 'bound');  'SPS' -> ('SPS', '')"""
+    ops, _, flav = hist.partition("@")
+    return ops, flav
+
+
+class SchedRec:
+    """what a callback reports to, under sched.py: the call is an event; a target call also offers the
+    processor to the other threads (voluntary yield)"""
+
+    def __init__(self, sched):
+        self.sched = sched
+
+    def event(self, name, *data):
+        self.sched.event(name, *data)
+
+    def inside(self, name):
+        if name == "target":
+            self.sched.point("yield")
+
+
+def _emit(rec, name):
+    """body of every callback, whatever its flavour"""
+    rec.event(name)
+    rec.inside(name)
+
+
+def _fn_target():
+    _emit(_G["rec"], "target")
+
+
+def _fn_init():
+    _emit(_G["rec"], "init")
+
+
+def _fn_final():
+    _emit(_G["rec"], "final")
+
+
+class _Job:
+    """owner of bound-method callbacks"""
+
+    def __init__(self, rec):
+        self.rec = rec
+
+    def step(self):
+        _emit(self.rec, "target")
+
+    def init(self):
+        _emit(self.rec, "init")
+
+    def final(self):
+        _emit(self.rec, "final")
+
+
+class _Call:
+    """a callable object"""
+
+    def __init__(self, rec, name):
+        self.rec = rec
+        self.name = name
+
+    def __call__(self):
+        _emit(self.rec, self.name)
+
+
+def build_worker(nt, rec, cfg, flav, name="w"):
+    """a fresh real ThreadCommon with the callbacks `cfg` (two 0/1 chars: init given, final given) that report
+    to `rec`, built the way `flav` says.  Returns (object, keep-alive): for every flavour but the plain one the
+    ThreadCommon object is the ONLY thing that refers to the callbacks or their owner."""
+    wi, wf = cfg[0] == "1", cfg[1] == "1"
+    if flav in ("", "same"):
+        def target():
+            _emit(rec, "target")
+
+        def init():
+            _emit(rec, "init")
+
+        def final():
+            _emit(rec, "final")
+
+        tc = nt.ThreadCommon(target, init=init if wi else None, final=final if wf else None, name=name)
+        return tc, (target, init, final)
+    if flav == "bound":
+        job = _Job(rec)
+        tc = nt.ThreadCommon(job.step, init=job.init if wi else None, final=job.final if wf else None, name=name)
+        del job
+    elif flav == "lambda":
+        tc = nt.ThreadCommon(lambda: _emit(rec, "target"), init=(lambda: _emit(rec, "init")) if wi else None,
+                             final=(lambda: _emit(rec, "final")) if wf else None, name=name)
+    elif flav == "partial":
+        tc = nt.ThreadCommon(functools.partial(_emit, rec, "target"),
+                             init=functools.partial(_emit, rec, "init") if wi else None,
+                             final=functools.partial(_emit, rec, "final") if wf else None, name=name)
+    elif flav == "func":
+        _G["rec"] = rec
+        tc = nt.ThreadCommon(_fn_target, init=_fn_init if wi else None, final=_fn_final if wf else None, name=name)
+    elif flav == "callobj":
+        tc = nt.ThreadCommon(_Call(rec, "target"), init=_Call(rec, "init") if wi else None,
+                             final=_Call(rec, "final") if wf else None, name=name)
+    else:
+        raise ValueError(f"unknown callback flavour {flav!r}")
+    gc.collect()
+    return tc, None
+
+
 def run_case(cfg, hist, policy):
-    """execute history `hist` (string over S P A) on a fresh real ThreadCommon built with the
-    callbacks `cfg` (two 0/1 chars: init given, final given) under `policy`.
+    """execute history `hist` (string over S P A, optionally `@flavour`) on a fresh real ThreadCommon built
+    with the callbacks `cfg` (two 0/1 chars: init given, final given) under `policy`.
     Returns (result, summary) — summary = observed end state, or None if the run was aborted."""
     nt = _nt()
+    ops, flav = split_hist(hist)
     s = S.Scheduler(policy, trace_files=[nt.__file__], prim_points=False, max_steps=MAX_STEPS)
     box = {}
 
-    def target():
-        s.event("target")
-        s.point("yield")
-
-    def init():
-        s.event("init")
-
-    def final():
-        s.event("final")
-
     def main():
-        tc = nt.ThreadCommon(target, init=init if cfg[0] == "1" else None,
-                             final=final if cfg[1] == "1" else None, name="w")
+        # flavour `same`: the worker thread carries the name of the thread that controls it
+        name = s.threading.current_thread().name if flav == "same" else "w"
+        tc, keep = build_worker(nt, SchedRec(s), cfg, flav, name)
         box["tc"] = tc
+        box["keep"] = keep
         started = False
-        for k, op in enumerate(hist):
+        for k, op in enumerate(ops):
             if k:
                 s.point("yield")     # time passes between two calls of the application
             s.event("call", op)
@@ -182,9 +312,15 @@ def check_property(cfg, res):
             return bad("no-final", f"run of thread {tid} ended without final", "final once", seq)
         polled = False
         for n, d, _ in es:
+            if n in ("tend", "iend", "fend"):     # end of a callback call (virtual-time scenarios): not an action
+                continue
             if n == "isset":
-                polled = d[1] == 0
-            elif n == "target":
+                polled = d[1] == 0       # (a repeated test is harmless: the latest answer counts)
+                continue
+            if polled and n != "target":
+                return bad("poll-clear-no-target", f"run of thread {tid}: the worker found the stop flag clear and then "
+                           f"did not call target (next: {n})", "keeps calling target until stop is requested", seq)
+            if n == "target":
                 if not polled:
                     return bad("target-unpolled", f"run of thread {tid}: target called without a preceding test of "
                                "the stop flag that found it clear", "stop flag polled before each target call", seq)
@@ -193,7 +329,15 @@ def check_property(cfg, res):
     started = False          # last returned call of start/stop was start
     call = None              # call in progress: (op, started at call time, index)
     created = None
+    live = set()             # worker threads started and not yet ended
     for i, (tid, name, data) in enumerate(ev):
+        if name == "start":
+            live.add(data[0])
+            if len(live) > 1:
+                return bad("two-live-workers", f"worker threads {sorted(live)} are alive at the same time",
+                           "at most one worker", " ".join(toks[:i + 1]))
+        elif name == "exit":
+            live.discard(tid)
         if tid == 0 and name == "call":
             call = (data[0], started, i)
             created = None
@@ -299,15 +443,16 @@ def _job(job):
     kind, cfg, hist, arg = job
     out = {}
     n = 0
+    ops, flav = split_hist(hist)
     if kind == "explore":
         bound, limit = arg
         results = _explore_with_summary(cfg, hist, bound, limit)
-        tag = f"explore-k{bound}-len{len(hist)}"
+        tag = f"explore-k{bound}-len{len(ops)}" + (f"@{flav}" if flav else "")
     else:
         seed, count, p = arg
         rng = random.Random(seed)
         results = (run_case(cfg, hist, S.RandomWalk(rng, p)) for _ in range(count))
-        tag = f"random-len{len(hist)}"
+        tag = f"random-len{len(ops)}" + (f"@{flav}" if flav else "")
     for res, summary in results:
         n += 1
         toks = " ".join(tokens(res.events))
@@ -315,7 +460,8 @@ def _job(job):
             continue
         v = check_property(cfg, res)        # the oracle's verdict on this very execution
         if v:
-            v.update(schedule=sched_str(res.choices), history=hist, callbacks=cfg, diverged=res.diverged)
+            v.update(schedule=sched_str(res.choices), history=hist, callbacks=cfg, diverged=res.diverged,
+                     callbacks_built_as=FLAVOUR_DOC[flav])
         out[toks] = (make_line(cfg, hist, res), tag, impl_line(cfg, res, summary, v), S.preemptions(res) > 0, v)
     capped = kind == "explore" and arg[1] is not None and n >= arg[1]
     return (n, f"{cfg}:{hist}:k{arg[0]}" if capped else None), list(out.values())
@@ -339,6 +485,295 @@ def histories(alphabet, maxlen):
     for _ in range(maxlen):
         hs = [h + a for h in hs for a in alphabet]
         out += hs
+    return out
+
+
+# ----------------------------------------------------------------------------------------
+# virtual-time scenarios (harness/vsim.py): a callback that stays inside one call for a long time
+# ----------------------------------------------------------------------------------------
+VS_HISTORY = "S A w1 P A S A w2.5h A P A w2h"     # w<x> = the controller sleeps x (h = hold) virtual seconds
+END_OF = {"init": "iend", "target": "tend", "final": "fend"}
+
+
+class VRec:
+    """recorder of a virtual-time scenario; same event vocabulary as sched.Result.events, plus the virtual
+    time of every event and the end of every callback call (`iend` / `tend` / `fend`)"""
+
+    def __init__(self, sim, vsim, blocker, hold):
+        self.sim = sim
+        self.vsim = vsim
+        self.blocker = blocker        # which callback stays inside one call for `hold` seconds
+        self.hold = hold
+        self.short = hold / 4.0       # duration of an ordinary target call
+        self.events = []
+        self.times = []
+        self.threads = []             # worker thread objects, in creation order (tid = index + 1)
+        self.controller = None        # the controlling thread object when it is not the main task
+        self.closed = False
+
+    def tid(self):
+        cur = self.sim.cur
+        for k, t in enumerate(self.threads):
+            if t.task is cur:
+                return k + 1
+        return 0
+
+    def event(self, name, *data):
+        if not self.closed:
+            self.events.append((self.tid(), name, data))
+            self.times.append(self.sim.now)
+
+    def inside(self, name):
+        if name == self.blocker:
+            self.vsim.vsleep(self.hold)
+        elif name == "target":
+            self.vsim.vsleep(self.short)
+        self.event(END_OF[name])
+
+
+def _vthreading(rec, vsim):
+    """what nxslib.thread sees as `threading` in a virtual-time scenario: vsim's Thread / Event with the events
+    recorded, `current_thread()`, everything else from the real module"""
+    import threading as real
+
+    class VT(vsim.VThread):
+        def __init__(self, group=None, target=None, name=None, args=(), kwargs=None, *, daemon=None):
+            super().__init__(target=target, name=name, args=args, kwargs=kwargs, daemon=daemon)
+            rec.threads.append(self)
+            self.k = len(rec.threads)
+            rec.event("new", self.k)
+
+        @property
+        def ident(self):
+            return id(self.task) if self.task is not None else None
+
+        def start(self):
+            if self.task is None:
+                inner = self.target
+
+                def body(*a, **kw):
+                    try:
+                        inner(*a, **kw)
+                    except vsim.Killed:
+                        raise
+                    except BaseException as e:  # noqa: BLE001 — recorded; vsim lists it in sim.errors
+                        rec.event("exc", type(e).__name__)
+                        raise
+                    rec.event("exit")
+
+                self.target = body
+                rec.event("start", self.k)
+            super().start()
+
+        def is_alive(self):
+            b = super().is_alive()
+            rec.event("alive", self.k, int(b))
+            return b
+
+        def join(self, timeout=None):
+            super().join(timeout)
+            if self.task.state == "done":
+                rec.event("join", self.k)
+            else:
+                rec.event("timeout", "join", self.k)
+
+    class VE(vsim.VEvent):
+        def set(self):
+            super().set()
+            rec.event("set", 1)
+
+        def clear(self):
+            super().clear()
+            rec.event("clear", 1)
+
+        def is_set(self):
+            b = super().is_set()
+            rec.event("isset", 1, int(b))
+            return b
+
+    class MainStub:
+        name = "MainThread"
+        ident = 1
+        daemon = False
+
+        def is_alive(self):
+            return True
+
+    stub = MainStub()
+
+    class NS:
+        Thread = VT
+        Event = VE
+
+        @staticmethod
+        def current_thread():
+            cur = vsim.sim().cur
+            for t in rec.threads + ([rec.controller] if rec.controller else []):
+                if t.task is cur:
+                    return t
+            return stub
+
+        def __getattr__(self, name):
+            return getattr(real, name)
+
+    return NS()
+
+
+def vscen_line(blocker, cfg, flav, hold, same, preempt, seed):
+    return f"worker vscen {blocker} {cfg} {flav or '-'} {hold} {int(same)} {int(preempt)} {seed}"
+
+
+def vscen(line, detail=None):
+    """run one virtual-time scenario on the real ThreadCommon and judge it; None or a violation dict.
+
+    `worker vscen <blocker> <cfg> <flavour|-> <hold> <same> <preempt> <seed>`: the `<blocker>` callback (init |
+    target | final) stays inside ONE call for <hold> virtual seconds (an ordinary target call takes hold/4); the
+    controller performs VS_HISTORY — in particular stop() one second after start(), i.e. while that call is
+    in progress, and start() again immediately after stop() returned.  <same>: the controller is itself a thread
+    with the worker's name.  <preempt>/<seed>: vsim switches at every primitive, seeded choice of who runs."""
+    import types
+    import vsim
+    nt = _nt()
+    t = line.split(" ")
+    blocker, cfg, flav, hold, same, preempt, seed = t[2], t[3], ("" if t[4] == "-" else t[4]), float(t[5]), \
+        t[6] == "1", t[7] == "1", int(t[8])
+    box = {}
+
+    def fn(sim):
+        rec = box["rec"] = VRec(sim, vsim, blocker, hold)
+        nt.threading = _vthreading(rec, vsim)        # (restored by vsim.installed on exit)
+
+        def control():
+            tc, keep = build_worker(nt, rec, cfg, flav, name="w")
+            box["keep"] = (tc, keep)
+            for step in VS_HISTORY.split(" "):
+                if step[0] == "w":
+                    x = step[1:]
+                    vsim.vsleep(float(x[:-1]) * hold if x.endswith("h") else float(x))
+                    continue
+                rec.event("call", step)
+                meth = {"S": tc.thread_start, "P": tc.thread_stop, "A": tc.thread_is_alive}[step]
+                try:
+                    r = meth()
+                except vsim.Killed:
+                    raise
+                except Exception as e:  # noqa: BLE001 — an exception escaping the call is an observation
+                    rec.event("exc", type(e).__name__)
+                    continue
+                rec.event("ret", step, tc._thrd is not None, r)
+            rec.event("end")
+            rec.closed = True
+            tc.stop_set()            # clean-up, outside the case
+
+        if same:
+            ctl = rec.controller = vsim.VThread(target=control, name="w")
+            ctl.start()
+            ctl.join()
+        else:
+            control()
+
+    r, sim = vsim.run_sim(fn, seed=seed if preempt else None, preempt=preempt, time_limit=40 * hold + 100,
+                          real_limit=20.0)
+    rec = box.get("rec")
+    if rec is None:
+        return {"key": "vscen-harness", "what": f"scenario did not start: {r!r}"}
+    rec.closed = True
+    ev = [e for e in rec.events if e[1] != "end"]
+    tm = rec.times[:len(ev)]
+    toks = tokens(ev)
+    desc = {"scenario": f"real ThreadCommon under virtual time: the {blocker} callback stays inside one call for "
+                        f"{hold:g} s (an ordinary target call takes {hold / 4:g} s); controller: {VS_HISTORY} "
+                        "(w<x> = sleep x virtual seconds, h = that hold time)",
+            "callbacks": cfg, "callbacks_built_as": FLAVOUR_DOC[flav],
+            "controller_thread": "a thread named like the worker ('w')" if same else "main thread",
+            "timeline_legend": "<thread><event>@<virtual time>; thread 0 = controller, k = k-th worker thread; S P A = "
+                               "start/stop/is_alive called, R<handle present>[<value>] = returned; c e q<b> = flag cleared / "
+                               "set / tested; n s a<b> j = Thread created / started / is_alive / joined; i t f x = init / "
+                               "target / final entered, thread ended",
+            "timeline": " ".join(f"{tk}@{t:g}" for tk, t in zip(toks, [x for e, x in zip(ev, tm)
+                                                                    if tokens([e])]))[:3000]}
+
+    live, overlap = set(), None       # what the restart then leads to (reported with the first violation)
+    for (tid, name, data), now in zip(ev, tm):
+        if name == "start":
+            live.add(data[0])
+            if len(live) > 1 and overlap is None:
+                overlap = (sorted(live), now)
+        elif name == "exit":
+            live.discard(tid)
+    if overlap:
+        desc["and_then"] = (f"from t={overlap[1]:g} s the worker threads {overlap[0]} are alive at the same time "
+                            "(the start() that follows clears the stop flag the old worker has not looked at yet)")
+    if detail is not None:
+        detail.update(desc, outcome=repr(r), events=len(ev), virtual_end=sim.now)
+
+    def bad(key, what, expected, observed):
+        return {"key": key, "what": what, "expected": expected, "observed": observed, **desc}
+
+    if isinstance(r, BaseException) and not isinstance(r, (vsim.Deadlock, vsim.TimeLimit, vsim.Spin, vsim.RealTimeLimit)):
+        return bad("exception", f"the scenario raised {type(r).__name__}: {r}", "no exception", type(r).__name__)
+    # clock-aware: a stop() that returns while a callback call is still in progress
+    inside = {}                 # tid -> (callback, entered at)
+    tcall = None
+    for (tid, name, data), now in zip(ev, tm):
+        if tid != 0 and name in END_OF:
+            inside[tid] = (name, now)
+        elif tid != 0 and name in END_OF.values():
+            inside.pop(tid, None)
+        elif tid == 0 and name == "call":
+            tcall = now
+        elif tid == 0 and name == "ret" and data[0] == "P" and inside:
+            k, (cb, t_in) = sorted(inside.items())[0]
+            return bad("stop-returned-during-callback",
+                       f"stop() called at t={tcall:g} s returned at t={now:g} s while worker thread {k} was still inside "
+                       f"the {cb} call it had entered at t={t_in:g} s",
+                       f"stop() returns only after that call has ended (t={t_in + (hold if cb == blocker else hold / 4):g} s), "
+                       "final has run and the thread is gone", f"returned {now - tcall:g} s after the request")
+    if isinstance(r, vsim.Deadlock):
+        return bad("deadlock", f"nobody can run: {r}", "every call returns", "deadlock")
+    if isinstance(r, BaseException):
+        return bad("no-return", f"the scenario never finished: {type(r).__name__}: {str(r)[:300]}",
+                   "every call returns", type(r).__name__)
+    errs = {i + 1: e for i, (name, e, tb) in enumerate(sim.errors)}
+    res = types.SimpleNamespace(events=ev, deadlock=[], truncated=False, exceptions=errs)
+    v = check_property(cfg, res)
+    if v:
+        v.update(desc)
+        return v
+    return None
+
+
+def vscen_lines(rng, tier):
+    """the virtual-time scenarios of a tier"""
+    out = []
+
+    def add(blocker, cfg, flav, hold, same, seeds):
+        if (blocker == "init" and cfg[0] == "0") or (blocker == "final" and cfg[1] == "0"):
+            return
+        out.append(vscen_line(blocker, cfg, flav, hold, same, False, 0))
+        for sd in seeds:
+            out.append(vscen_line(blocker, cfg, flav, hold, same, True, sd))
+
+    if tier == "thorough":
+        seeds = [rng.randrange(1 << 16) for _ in range(3)]
+        for blocker in ("target", "init", "final"):
+            for hold in (10, 60, 3600):
+                for cfg in ("11", "10", "01", "00"):
+                    for flav in ("",) + FLAVOURS[:-1]:
+                        for same in (False, True):
+                            add(blocker, cfg, flav, hold, same, seeds)
+    else:
+        seeds = [rng.randrange(1 << 16)]
+        for blocker in ("target", "init", "final"):
+            for hold in (10, 3600):
+                add(blocker, "11", "", hold, False, seeds)
+        add("target", "11", "", 10, True, seeds)
+        add("final", "11", "", 3600, True, seeds)
+        for flav in FLAVOURS[:-1]:
+            add("target", "11", flav, 10, False, seeds)
+        add("init", "11", "bound", 60, True, seeds)
+        for cfg in ("00", "10", "01"):
+            add("target", cfg, "", 60, False, seeds)
     return out
 
 
@@ -385,10 +820,13 @@ class C13(Prop):
     id = "C13"
     lean_module = "NxsModel.Props.C13"
     rule = ("real ThreadCommon on real threads under harness/sched.py; cases = (callback config, start/stop/"
-            "is_alive history, schedule); all schedules with <= k pre-emptions at source-line granularity "
+            "is_alive history [@ how the callbacks are built: closures / bound methods of a dropped temporary / lambdas / "
+            "partials / plain functions / callable objects / worker named like the controller], schedule); all schedules with <= k pre-emptions at source-line granularity "
             "(k=2 quick, k=3 thorough, |history| <= 4; k=4 for |history| <= 3) + seeded random walks on histories up to "
             "length 8; one case per DISTINCT observed trace (schedules giving the same trace are merged; "
-            "executions counted separately as schedules_executed); non-trivial = at least one pre-emption")
+            "executions counted separately as schedules_executed); non-trivial = at least one pre-emption; plus (oracle only) "
+            "virtual-time scenarios under harness/vsim.py: a callback inside one call for 10 s … 1 h while stop() is called, "
+            "immediate restart, controller thread named like the worker")
     assumptions = ["threading.Thread.start/join/is_alive and threading.Event behave as documented (the scheduler's "
                    "shims implement the documented behaviour on real OS threads; CPython's own implementation of "
                    "them is not exercised)",
@@ -398,7 +836,8 @@ class C13(Prop):
                    "liveness is proved as: cannot leave the loop while the flag is clear and a target call is a "
                    "bounded number of own steps away — not a fairness statement about the OS scheduler"]
     trusted_base = Prop.trusted_base + ["harness/translate_thread.py (thread.py -> instruction lists)",
-                                        "harness/sched.py (deterministic scheduler, shims of Thread/Event)"]
+                                        "harness/sched.py (deterministic scheduler, shims of Thread/Event)",
+                                        "harness/vsim.py (virtual-time runtime: Thread.join(timeout) / sleep on a virtual clock)"]
 
     def __init__(self):
         self._impl = {}
@@ -423,8 +862,17 @@ class C13(Prop):
             for h in histories("SPA", 4):
                 if "A" in h:
                     jobs.append(("explore", "11", h, (3 if len(h) <= 3 else 2, 4000)))
+            for flav in FLAVOURS:
+                for h in ("S", "SP", "SPS", "SPSP", "SAP", "SSPP"):
+                    jobs.append(("explore", "11", f"{h}@{flav}", (2, 3000)))
+                for cfg in ("00", "10", "01"):
+                    jobs.append(("explore", cfg, f"SPS@{flav}", (2, 3000)))
             nrand, cnt = 128, 100
         else:
+            for flav in FLAVOURS:
+                for h in ("S", "SP", "SPS", "SAP"):
+                    jobs.append(("explore", "11", f"{h}@{flav}", (2, 600)))
+                jobs.append(("explore", "00", f"SPS@{flav}", (1, 400)))
             for h in histories("SP", 4):
                 jobs.append(("explore", "11", h, (2, 1500)))
             for h in histories("SP", 3):
@@ -438,8 +886,10 @@ class C13(Prop):
             n = rng.randrange(3, 9)
             h = "".join(rng.choice("SSPPA") for _ in range(n))
             cfg = rng.choice(["11", "11", "00", "10", "01"])
-            jobs.append(("random", cfg, h, (rng.randrange(1 << 30), cnt, rng.choice([0.1, 0.25, 0.5]))))
-        jobs.sort(key=lambda j: -(len(j[2]) * 10 + (j[3][0] if j[0] == "explore" else 0)))   # long jobs first
+            flav = rng.choice(("",) * len(FLAVOURS) + FLAVOURS)      # half of the walks on a non-plain flavour
+            jobs.append(("random", cfg, h + ("@" + flav if flav else ""),
+                         (rng.randrange(1 << 30), cnt, rng.choice([0.1, 0.25, 0.5]))))
+        jobs.sort(key=lambda j: -(len(split_hist(j[2])[0]) * 10 + (j[3][0] if j[0] == "explore" else 0)))   # long jobs first
         return jobs
 
     def run_jobs(self, jobs):
@@ -481,15 +931,25 @@ class C13(Prop):
     def impl(self, line):
         if line in self._impl:
             return self._impl[line]
-        cfg, hist, choices, _ = self.parse(line)
+        cfg, hist, choices, toks = self.parse(line)
         res, summary = run_case(cfg, hist, S.FixedSchedule(choices))
-        return impl_line(cfg, res, summary)
+        out = impl_line(cfg, res, summary)
+        if tokens(res.events) != toks:
+            # a recorded case (corpus): on this input (callbacks, history, schedule) the real code no longer
+            # produces the recorded trace
+            out += " trace-differs"
+        return out
 
     def nontrivial(self, line, out):
         return self._nontrivial.get(line, True)
 
     def oracle(self, line, impl_out=None):
         t = line.split(" ")
+        if t[1] == "vscen":      # virtual-time scenario (not a driver line)
+            v = vscen(line)
+            if v:
+                v["case"] = line
+            return v
         if t[1] == "guided":     # `worker guided <cfg> <history> <model path tokens…>`
             cfg, hist, want = t[2], t[3], t[4:]
             res, _ = run_case(cfg, hist, Guided(want))
@@ -509,6 +969,7 @@ class C13(Prop):
             v["schedule"] = sched_str(res.choices)
             v["history"] = hist
             v["callbacks"] = cfg
+            v["callbacks_built_as"] = FLAVOUR_DOC[split_hist(hist)[1]]
             v["diverged"] = res.diverged
         return v
 
@@ -556,7 +1017,18 @@ class C13(Prop):
             cov["transitions"] = sum(int(s.split("transitions=")[1].split(" ")[0]) for s in stats)
         except Exception as e:  # noqa: BLE001
             cov["model_states_per_config"] = f"driver unavailable: {e}"
-        return []
+        # virtual-time scenarios: the real code judged by the oracle (no model of time on the Lean side)
+        out = []
+        lines = vscen_lines(rng, tier)
+        keys = set()
+        for l in lines:
+            v = self.oracle(l)
+            if v and v.get("key") not in keys:
+                keys.add(v.get("key"))
+                out.append(v)
+        cov["virtual_time_scenarios"] = len(lines)
+        cov["virtual_time_scenario_sample"] = lines[:3]
+        return out
 
 
 PROP = C13()
